@@ -41,7 +41,8 @@ func valOf(class string, tag int) []byte {
 	case "empty":
 		return []byte{}
 	}
-	return []byte(fmt.Sprintf("\x00v%d\xff\xfe=+", tag))
+	// (lengths 9, 10, 11: every base64 padding; one of them ends in a NUL)
+	return append([]byte(fmt.Sprintf("\x00v%d\xff\xfe=+", tag)), []byte{'q', 0}[:tag%3]...)
 }
 
 // scripted sasl.Client
